@@ -44,11 +44,18 @@ Section Pres.
     intros HI Hstep. step_split Hstep Ea Est.
     all: try discriminate Hstep.
     all: injection Hstep as <-.
+    all: pop_cont_split.
     all: pose proof (stacks_lookup _ _ _ Ea) as Hst; rewrite Est in Hst.
     all: eapply (shape_update s _ a _ _ HI Hst); [solve_stacks|].
     all: try match goal with k : kont |- _ => destruct k end.
-    all: pose proof (below_le marker rest) as B1; pose proof (below_le chain rest) as B2; pose proof (below_le toponly rest) as B3.
-    all: assert (B4 : cntf toponly (tail rest) <= cntf toponly rest) by (destruct rest as [|? ?]; cbn; [lia|]; match goal with |- _ <= (if ?b then _ else _) + _ => destruct b; lia end).
+    all: match goal with Hst : stacks _ !! _ = Some (_ :: ?r) |- _ =>
+           pose proof (below_le marker r) as B1; pose proof (below_le chain r) as B2; pose proof (below_le toponly r) as B3;
+           assert (B4 : cntf toponly (tail r) <= cntf toponly r) by
+             (destruct r as [|? ?]; cbn; [lia|]; match goal with |- _ <= (if ?b then _ else _) + _ => destruct b; lia end) end.
+    all: try match goal with Hst : stacks _ !! _ = Some (_ :: _ :: ?r2) |- _ =>
+           pose proof (below_le marker r2) as C1; pose proof (below_le chain r2) as C2; pose proof (below_le toponly r2) as C3;
+           assert (C4 : cntf toponly (tail r2) <= cntf toponly r2) by
+             (destruct r2 as [|? ?]; cbn; [lia|]; match goal with |- _ <= (if ?b then _ else _) + _ => destruct b; lia end) end.
     all: unfold mshape; cbn; intros (H1 & H2 & H3).
     all: try (repeat split; lia).
     (* opt_wake / wake_frames prefixes *)
